@@ -6,6 +6,8 @@
 package main
 
 import (
+	"os"
+	"net"
 	"context"
 	"encoding/json"
 	"errors"
@@ -30,7 +32,10 @@ func (t *tagged) Unwrap() error { return t.base }
 var retryables = []error{chord.ErrKVStaleOwnership, chord.ErrKVPendingTransfer, context.DeadlineExceeded,
 	chord.ErrJoinInvalidState, fmt.Errorf("remote: %w", chord.ErrKVStaleOwnership)}
 var fatals = []error{chord.ErrKVSimpleConflict, chord.ErrKVPrefixConflict, chord.ErrKVLeaseConflict, chord.ErrKVLeaseExpired,
-	chord.ErrNodeGone, errors.New("disk on fire"), context.Canceled, chord.ErrKVHashFnChanged}
+	chord.ErrNodeGone, errors.New("disk on fire"), context.Canceled, chord.ErrKVHashFnChanged,
+	// timeout-flavoured transport errors that are not the context deadline: net.Error with Timeout() == true, bare and wrapped
+	&net.OpError{Op: "read", Net: "udp", Err: os.ErrDeadlineExceeded}, &net.DNSError{Err: "i/o timeout", Name: "node.internal", IsTimeout: true},
+	fmt.Errorf("sending request: %w", &net.OpError{Op: "dial", Net: "tcp", Err: os.ErrDeadlineExceeded})}
 
 type script struct {
 	chord.VNode // nil: any method the wrapper should not touch panics
